@@ -109,8 +109,11 @@ func (r *c16Ref) clone() *c16Ref {
 
 func (r *c16Ref) key() string {
 	ks := make([]string, 0, len(r.recs))
-	for k, v := range r.recs {
-		ks = append(ks, fmt.Sprintf("%s@%d:%d#%d", k, int64(v.Height)-int64(r.h), v.Price, v.Seq))
+	for _, v := range r.recs {
+		// age in seconds AND in blocks relative to now: both expiry rules depend on them (an earlier
+		// version keyed records by absolute timestamp only and so merged states that differ in the
+		// time elapsed since the feed — an unsound merge that hid the time rule's futures)
+		ks = append(ks, fmt.Sprintf("%s|%s@-%ds,%d:%d#%d", v.Asset, v.Source, int64(r.t)-int64(v.Ts), int64(v.Height)-int64(r.h), v.Price, v.Seq))
 	}
 	sort.Strings(ks)
 	fs := []string{}
